@@ -9,6 +9,7 @@ EXPLANATION = ("C09: in bus0_sock_send every per-peer action is guarded by the r
                "receive buffer frees the whole message; and (all protocols) a pipe's next receive is armed under the socket "
                "lock or after the current message was disposed of, so two messages of one peer cannot overtake each other."
                " Also: waiting operations are never prepended or served from the tail (R8); a reflector device runs a single forwarder (R9).")
+EXPLANATION += ' Round 6: a send that can still be refused has not taken anything out of the message (R10); a transport masks only storage of its own, never the shared message (R11 = C16.R17); the fan-out loop visits every pipe (R12 = C12.R9).'
 
 
 def rule_r1(ctx):
@@ -255,3 +256,8 @@ def run(ctx):
     for rr in ctx.rules:
         if rr.id == "C13.R6":
             rr.id = "C09.R9"
+    from . import c12
+    ctx.guard(c12.rule_r9)           # every other peer is offered the message: the fan-out loop has no early exit
+    for rr in ctx.rules:
+        if rr.id == "C12.R9":
+            rr.id = "C09.R12"
